@@ -126,7 +126,31 @@ def run(ctx):
         workloads.random_history(ctx, srv, workloads.ExpiryGen(ctx.rnd), n=400 if ctx.quick else 1500, label='ttl%d' % i)
     n1 = run_stale(ctx, srv)
     n2 = run_race(ctx, srv, 6 if ctx.quick else 36)
-    ctx.extra_cov['distinct_cases'] = n_hist + n1 + n2
+    # the forms catalogue over keys that all carry a TTL: far ahead (in-place changes keep it, overwrites drop it, RENAME
+    # moves it) and already passed (every key is absent to every command, swept or not), through direct dispatch,
+    # MULTI/EXEC and scripts
+    import forms, formspaths
+    from session import Session
+    tr = ctx.new_trace('forms')
+    s = Session(srv, tr)
+    n3 = 0
+    F = forms.FORMS
+    try:
+        if ctx.quick:
+            n3 += formspaths.run_forms(s, 'direct', 0, subset=F[ctx.seed % 2::2], ttl='live')
+            n3 += formspaths.run_forms(s, 'direct', 0, subset=F[(ctx.seed + 1) % 2::2], ttl='passed')
+            n3 += formspaths.run_forms(s, 'script-lit', 0, subset=F[ctx.seed % 4::4], ttl='passed')
+            n3 += formspaths.run_forms(s, 'multi', 0, subset=F[(ctx.seed + 2) % 4::4], ttl='live')
+        else:
+            for path in ('direct', 'multi', 'script-lit'):
+                for ttl in ('live', 'passed'):
+                    n3 += formspaths.run_forms(s, path, 0, ttl=ttl)
+    except ServerDied:
+        tr.emit({'k': 'crash', 'status': srv.exit_status()})
+    s.close_all()
+    ctx.validate_segments(tr, 'forms')
+    ctx.extra_cov['form_segments'] = n3
+    ctx.extra_cov['distinct_cases'] = n_hist + n1 + n2 + n3
 
 
 def replay(ctx, path):
